@@ -50,6 +50,7 @@ def jobs(tier, seed):
     js += [{"sub": "ports"}, {"sub": "names"}, {"sub": "select"}]
     m = 16 if tier == "quick" else 96
     js += [{"sub": "layout", "chunk": i, "of": m} for i in range(m)]
+    js += [{"sub": "comments2", "chunk": i, "of": 16} for i in range(16)]
     js.append({"sub": "order", "chunk": 0, "of": 16, "hashseed": 1 + seed % 1000, "primary": False})
     return js
 
@@ -497,6 +498,31 @@ def run_layout(job, acc):
     acc.observe(acc.states)
 
 
+def run_comments2(job, acc):
+    """Every pair of gaps of program 1 holds a comment (block/block, block/line, line/line): statements
+    between two comments must survive."""
+    m = layout_programs()[0]
+    toks = V.module_tokens(m)
+    protect = V.header_close_positions(toks)
+    pos = [i for i in range(len(toks) - 1) if i not in protect]
+    idx = 0
+    for p1, p2 in itertools.combinations(pos, 2):
+        for c1, c2 in ((" /* c */ ", " /* d */ "), (" // c\n", " /* d */ ")):
+            idx += 1
+            if idx % job["of"] != job["chunk"]:
+                continue
+            gaps = {p1: c1, p2: c2}
+            text = V.render(toks, gaps)
+            acc.states += 1
+            acc.nontrivial += 1
+            case = {"kind": "layout", "program": 0, "gaps": {str(k): v for k, v in gaps.items()}}
+            bad = check_module(acc, m, text, case, "comments2")
+            if bad and bad != ["*"]:
+                report(acc, "comments2", case, text, bad)
+    acc.sample({"text": V.render(toks, {pos[3]: " /* c */ ", pos[-3]: " /* d */ "})})
+    acc.observe(acc.states)
+
+
 # --- module selection -----------------------------------------------------------------------------------------------------
 
 
@@ -537,7 +563,7 @@ def run(job):
     common.setup_paths()
     acc = Acc(job)
     {"expr": run_expr, "gates": run_gates, "order": run_order, "bb": run_bb, "ports": run_ports, "names": run_names,
-     "layout": run_layout, "select": run_select}[job["sub"]](job, acc)
+     "layout": run_layout, "select": run_select, "comments2": run_comments2}[job["sub"]](job, acc)
     return acc.result()
 
 
